@@ -30,6 +30,18 @@ CONSTANTS
 
 FOREVER == 16777215
 
+\* all deviation switches off = the intended design; AsShipped = the pinned commit 06eaa50
+AllOff == [ DeferExpiryNotify   |-> FALSE,  \* D1  TimedStore._expired defers its callback
+            DeferStopAllNotify  |-> FALSE,  \* D2  stop_all_for_address defers its callbacks
+            DeferRebootFanout   |-> FALSE,  \* D3  reboot_detected defers the three components
+            IgnoreWhenUnwatched |-> FALSE,  \* D10/D12 handle_offer ignores everything unwatched
+            DeferWatchReplay    |-> FALSE,  \* D11 watch/unwatch replay deferred
+            DeferHandleOffer    |-> FALSE,  \* D13 offers deferred (harmful once D3 is repaired)
+            StaleTimerOnRefresh |-> FALSE,  \* spec mutant: refresh forgets to cancel the old timer
+            ForeverGetsTimer    |-> FALSE ] \* spec mutant: the infinite TTL arms a timer
+AsShipped == [AllOff EXCEPT !.DeferExpiryNotify = TRUE, !.DeferStopAllNotify = TRUE, !.DeferRebootFanout = TRUE,
+                            !.IgnoreWhenUnwatched = TRUE, !.DeferWatchReplay = TRUE, !.DeferHandleOffer = TRUE]
+
 -----------------------------------------------------------------------------
 (* ------------------------------ helpers --------------------------------- *)
 Range(f) == {f[x] : x \in DOMAIN f}
@@ -69,9 +81,8 @@ RebootSeen(s, src, mc, rb, sid) ==
 SessRecord(s, src, mc, rb, sid) == [s EXCEPT !.sessIn = Put(@, <<src, mc>>, <<rb, sid>>)]
 
 -----------------------------------------------------------------------------
-(* ------------------------------ discovery -------------------------------- *)
+(* ----------------------- discovery: registrations ------------------------ *)
 \* s.watch : [listener -> set of filter names]  ("ALL" = watch_all_services)
-\* s.found : set of <<src, svc>>  (TimedStore found_services; its timers live in s.timers)
 Hears(s, l, svc) == \E f \in s.watch[l] : svc \in Match[f]
 Listeners(s, svc) == {l \in DOMAIN s.watch : Hears(s, l, svc)}
 \* is_watching_service: some watch-all listener, or a filter that was EVER watched matches
@@ -87,42 +98,64 @@ NotifySeq(s, q, what, svc, src) ==
 \* registered NOW (order = dict / set order: canonical here, compared as a bag by SDTrace)
 NotifyFound(s, what, svc, src) == NotifySeq(s, SetToSeq(Listeners(s, svc)), what, svc, src)
 
-ExpTimer(src, svc) == [kind |-> "expired", store |-> "found", a |-> src, key |-> svc]
+-----------------------------------------------------------------------------
+(* ------------------------- TimedStore (C09) ------------------------------ *)
+\* s.store : [store name -> set of <<address, key>>]; the expiry timers live in s.timers and are
+\* identified by their content (one per entry).  Stores: "found" (ServiceDiscover.found_services),
+\* "ts" (a bare TimedStore driven directly, C09), <<"subs", i>> (ServiceInstance.subscriptions).
+ExpTimer(st, a, key) == [kind |-> "expired", store |-> st, a |-> a, key |-> key]
+Has(s, st, a, key) == <<a, key>> \in s.store[st]
 
-\* TimedStore.refresh on found_services
-FoundRefresh(s, src, svc, ttl) ==
-  LET isNew == <<src, svc>> \notin s.found
-      s1 == IF isNew THEN NotifyFound(s, "offered", svc, src) ELSE CancelTimer(s, ExpTimer(src, svc))
-      s2 == [s1 EXCEPT !.found = @ \cup {<<src, svc>>}]
-  IN IF ttl = FOREVER THEN s2 ELSE CallLater(s2, ttl, ExpTimer(src, svc))
+\* callback_new / callback_expired of the store
+TSNew(s, st, a, key) ==
+  CASE st = "found" -> NotifyFound(s, "offered", key, a)
+    [] st = "ts"    -> Out(s, [k |-> "out", op |-> "new", a |-> a, key |-> key])
+TSGone(s, st, a, key) ==
+  CASE st = "found" -> NotifyFound(s, "stopped", key, a)
+    [] st = "ts"    -> Out(s, [k |-> "out", op |-> "gone", a |-> a, key |-> key])
 
-\* TimedStore.stop
-FoundStop(s, src, svc) ==
-  IF <<src, svc>> \notin s.found THEN s
-  ELSE NotifyFound(CancelTimer([s EXCEPT !.found = @ \ {<<src, svc>>}], ExpTimer(src, svc)),
-                   "stopped", svc, src)
+\* TimedStore.refresh: a new entry is reported, an old timer cancelled; the new deadline replaces
+\* the old one (no timer at all for the infinite TTL)
+TSRefresh(s, st, a, key, ttl) ==
+  LET s1 == IF Has(s, st, a, key)
+            THEN (IF Sw.StaleTimerOnRefresh THEN s ELSE CancelTimer(s, ExpTimer(st, a, key)))
+            ELSE TSNew(s, st, a, key)
+      s2 == [s1 EXCEPT !.store[st] = @ \cup {<<a, key>>}]
+  IN IF ttl = FOREVER /\ ~Sw.ForeverGetsTimer THEN s2 ELSE CallLater(s2, ttl, ExpTimer(st, a, key))
+
+\* TimedStore.stop: immediate notification
+TSStop(s, st, a, key) ==
+  IF ~Has(s, st, a, key) THEN s
+  ELSE TSGone(CancelTimer([s EXCEPT !.store[st] = @ \ {<<a, key>>}], ExpTimer(st, a, key)), st, a, key)
 
 \* TimedStore._expired (timer callback).  As shipped the notification is deferred (D1).
-FoundExpired(s, src, svc) ==
-  IF <<src, svc>> \notin s.found THEN s
-  ELSE LET s1 == [s EXCEPT !.found = @ \ {<<src, svc>>}] IN
+TSExpired(s, st, a, key) ==
+  IF ~Has(s, st, a, key) THEN s
+  ELSE LET s1 == [s EXCEPT !.store[st] = @ \ {<<a, key>>}] IN
        IF Sw.DeferExpiryNotify
-       THEN CallSoon(s1, [kind |-> "notify_stopped", a |-> src, key |-> svc])
-       ELSE NotifyFound(s1, "stopped", svc, src)
+       THEN CallSoon(s1, [kind |-> "notify_gone", store |-> st, a |-> a, key |-> key])
+       ELSE TSGone(s1, st, a, key)
 
-RECURSIVE StopSeq(_, _, _)
-StopSeq(s, q, defer) ==
+RECURSIVE StopSeq(_, _, _, _)
+StopSeq(s, st, q, defer) ==
   IF q = <<>> THEN s
   ELSE LET k == Head(q)
-           s1 == CancelTimer([s EXCEPT !.found = @ \ {k}], ExpTimer(k[1], k[2]))
-       IN StopSeq(IF defer THEN CallSoon(s1, [kind |-> "notify_stopped", a |-> k[1], key |-> k[2]])
-                  ELSE NotifyFound(s1, "stopped", k[2], k[1]), Tail(q), defer)
-\* TimedStore.stop_all_for_address.  As shipped the notifications are deferred (D2).
-FoundStopAddr(s, src) ==
-  StopSeq(s, SetToSeq({k \in s.found : k[1] = src}), Sw.DeferStopAllNotify)
-\* TimedStore.stop_all  (connection_lost)
-FoundStopAll(s) == StopSeq(s, SetToSeq(s.found), Sw.DeferStopAllNotify)
+           s1 == CancelTimer([s EXCEPT !.store[st] = @ \ {k}], ExpTimer(st, k[1], k[2]))
+       IN StopSeq(IF defer THEN CallSoon(s1, [kind |-> "notify_gone", store |-> st, a |-> k[1], key |-> k[2]])
+                  ELSE TSGone(s1, st, k[1], k[2]), st, Tail(q), defer)
+\* TimedStore.stop_all_for_address / stop_all.  As shipped the notifications are deferred (D2).
+TSStopAddr(s, st, a) == StopSeq(s, st, SetToSeq({k \in s.store[st] : k[1] = a}), Sw.DeferStopAllNotify)
+TSStopAll(s, st) == StopSeq(s, st, SetToSeq(s.store[st]), Sw.DeferStopAllNotify)
+\* TimedStore.stop_all_matching: immediate, via stop()
+TSStopMatching(s, st, keys) == StopSeq(s, st, SetToSeq({k \in s.store[st] : k[2] \in keys}), FALSE)
 
+FoundRefresh(s, src, svc, ttl) == TSRefresh(s, "found", src, svc, ttl)
+FoundStop(s, src, svc) == TSStop(s, "found", src, svc)
+FoundStopAddr(s, src) == TSStopAddr(s, "found", src)
+FoundStopAll(s) == TSStopAll(s, "found")
+
+-----------------------------------------------------------------------------
+(* ------------------------------ discovery -------------------------------- *)
 \* ServiceDiscover.handle_offer (its own callback: queued by sd_message_received).
 \* Intended: a stop-offer always withdraws, and an offer nobody is watching (any more) must not
 \* leave a stale record behind.  As shipped (D10/D12) both are ignored when nobody is watching.
@@ -141,10 +174,10 @@ ReplaySeq(s, q, what, l, defer) ==
                     Tail(q), what, l, defer)
 Watch(s, l, f) ==
   LET s1 == [s EXCEPT !.watch[l] = @ \cup {f}, !.wkeys = IF f = "ALL" THEN @ ELSE @ \cup {f}]
-  IN ReplaySeq(s1, SetToSeq({k \in s.found : k[2] \in Match[f]}), "offered", l, Sw.DeferWatchReplay)
+  IN ReplaySeq(s1, SetToSeq({k \in s.store["found"] : k[2] \in Match[f]}), "offered", l, Sw.DeferWatchReplay)
 Unwatch(s, l, f) ==
   LET s1 == [s EXCEPT !.watch[l] = @ \ {f}]
-  IN ReplaySeq(s1, SetToSeq({k \in s.found : k[2] \in Match[f]}), "stopped", l, Sw.DeferWatchReplay)
+  IN ReplaySeq(s1, SetToSeq({k \in s.store["found"] : k[2] \in Match[f]}), "stopped", l, Sw.DeferWatchReplay)
 
 -----------------------------------------------------------------------------
 (* ----------------- ServiceDiscoveryProtocol: receive path ---------------- *)
@@ -181,12 +214,18 @@ Input(s, e) ==      \* an environment input, delivered as an I/O callback
     [] e.op = "watch"    -> Watch(s0, e.lst, e.flt)
     [] e.op = "unwatch"  -> Unwatch(s0, e.lst, e.flt)
     [] e.op = "connlost" -> ConnLost(s0)
+    \* a bare TimedStore driven through its public methods (C09)
+    [] e.op = "ts_refresh"  -> TSRefresh(s0, "ts", e.a, e.key, e.ttl)
+    [] e.op = "ts_stop"     -> TSStop(s0, "ts", e.a, e.key)
+    [] e.op = "ts_stopaddr" -> TSStopAddr(s0, "ts", e.a)
+    [] e.op = "ts_stopall"  -> TSStopAll(s0, "ts")
+    [] e.op = "ts_stopmatch" -> TSStopMatching(s0, "ts", Range(e.keys))
 
 Effect(s, c) ==
   CASE c.kind = "input"          -> Input(s, c.e)
     [] c.kind = "handle_offer"   -> HandleOffer(s, c.a, c.en)
-    [] c.kind = "expired"        -> FoundExpired(s, c.a, c.key)
-    [] c.kind = "notify_stopped" -> NotifyFound(s, "stopped", c.key, c.a)
+    [] c.kind = "expired"        -> TSExpired(s, c.store, c.a, c.key)
+    [] c.kind = "notify_gone"    -> TSGone(s, c.store, c.a, c.key)
     [] c.kind = "emit"           -> Out(s, c.e)
     [] c.kind = "reboot_disc"    -> FoundStopAddr(s, c.a)
     [] c.kind = "connlost_disc"  -> FoundStopAll(s)
@@ -199,7 +238,7 @@ vars == <<s>>
 Init ==
   s = [ ready |-> <<>>, todo |-> 0, timers |-> {}, outs |-> <<>>, ev |-> 0, idle |-> 0,
         sessIn |-> <<>>, peer |-> <<>>, watch |-> Cfg.watch0, wkeys |-> UNION Range(Cfg.watch0) \ {"ALL"},
-        found |-> {} ]
+        store |-> [found |-> {}, ts |-> {}] ]
 
 \* inputs applicable now (a listener registers under one filter at a time: DESIGN §9)
 Applicable(st, e) ==
@@ -237,9 +276,13 @@ Poll ==
      \E tq \in Perms(Due(s)) :
        /\ ins # <<>> \/ s.ready # <<>> \/ Due(s) # {}
        /\ \A i \in DOMAIN ins : Applicable(s, ins[i])
-       /\ LET s1 == Arrive([s EXCEPT !.outs = <<>>], ins)
-              s2 == [s1 EXCEPT !.ready = @ \o TimerCbs(tq), !.timers = @ \ Due(s)]
-          IN s' = [s2 EXCEPT !.todo = Len(s2.ready)]
+       /\ LET s1  == Arrive([s EXCEPT !.outs = <<>>, !.ready = <<>>], ins)   \* the I/O callbacks
+              io  == s1.ready
+              tcb == TimerCbs(tq)
+          IN \E ord \in (IF Cfg.timerPhase THEN Perms(1..(Len(io) + Len(tcb))) ELSE {[i \in 1..(Len(io) + Len(tcb)) |-> i]}) :
+               LET all == io \o tcb
+                   s2  == [s1 EXCEPT !.ready = s.ready \o [i \in DOMAIN all |-> all[ord[i]]], !.timers = @ \ Due(s)]
+               IN s' = [s2 EXCEPT !.todo = Len(s2.ready)]
 
 Run ==
   /\ s.todo > 0
@@ -247,13 +290,18 @@ Run ==
          s0 == [s EXCEPT !.ready = Tail(@), !.todo = @ - 1, !.outs = <<>>]
      IN s' = Effect(s0, c)
 
-\* nothing ready, nothing due: the loop is idle; one tick passes
+\* nothing ready, nothing due: the loop is idle; time passes -- one tick, or straight to the next
+\* deadline (the environment can therefore act just before, at and after every deadline)
+MinLeft(st) == CHOOSE m \in {x.left : x \in st.timers} : \A x \in st.timers : m <= x.left
 Tick ==
   /\ IsIdle(s)
   /\ s.timers # {} \/ (s.idle < MaxIdle /\ s.ev < MaxEv)
-  /\ s' = [s EXCEPT !.timers = {[x EXCEPT !.left = @ - 1] : x \in @},
-                    !.idle = IF s.timers = {} THEN @ + 1 ELSE @,
-                    !.outs = <<[k |-> "idle"], [k |-> "adv", d |-> 1]>>]
+  /\ \E d \in (IF s.timers = {} THEN {1}
+               ELSE IF MinLeft(s) <= 3 THEN {1, MinLeft(s)}
+               ELSE {MinLeft(s) - 1, MinLeft(s)}) :      \* far deadline: land just before it, or on it
+       s' = [s EXCEPT !.timers = {[x EXCEPT !.left = @ - d] : x \in @},
+                      !.idle = IF s.timers = {} THEN @ + 1 ELSE @,
+                      !.outs = <<[k |-> "idle"], [k |-> "adv", d |-> d]>>]
 
 Next == Poll \/ Run \/ Tick
 Spec == Init /\ [][Next]_vars
